@@ -704,6 +704,14 @@ func runValidator(o *out, r *rng, thorough bool, pid string) {
 					j.Vote.Value = e.chains[r.intn(len(e.chains))]
 					pg.GMessage.Justification = &j
 					keyKind += "+wire-just-value"
+				} else if pg.Justification != nil && pg.Justification.Vote.Phase == gpbft.COMMIT_PHASE && !orig.Vote.Value.IsZero() &&
+					(orig.Vote.Phase == gpbft.PREPARE_PHASE || orig.Vote.Phase == gpbft.CONVERGE_PHASE) && r.chance(35) {
+					// attacker-shaped wire form: the COMMIT-for-bottom justification of a later-round PREPARE / CONVERGE carries the
+					// vote's own chain as its value (the aggregate is the genuine one over bottom)
+					j := *pg.Justification
+					j.Vote.Value = orig.Vote.Value
+					pg.GMessage.Justification = &j
+					keyKind += "+wire-just-value-own"
 				}
 				wire := cloneMsg(pg.GMessage)
 				ktok := e.keyTokOfKey(pg.VoteValueKey)
